@@ -138,16 +138,25 @@ def run(ctx):
         for path in paths:
             idx = [(i, variant_name(v)) for i, (k, v) in enumerate(path.decisions) if k.startswith("discr(")
                    and variant_name(v) in ("Context", "Expected", "Resulting")]
+            # an iteration ends at the next decision on an iterator's `next()`
+            nexts = [i for i, (k, v) in enumerate(path.decisions) if "::next" in k and k.startswith("discr(")]
             for j, (i, kind) in enumerate(idx):
-                hi = idx[j + 1][0] if j + 1 < len(idx) else 10 ** 6
+                later = [n for n in nexts if n > i]
+                hi = later[0] if later else (idx[j + 1][0] if j + 1 < len(idx) else 10 ** 6)
+                if not later and j + 1 >= len(idx):
+                    # no further iteration decided on this path: only effects in the same straight-line segment count
+                    hi = i + 1 if path.end == "ret" and nexts else hi
                 effs = [e for e in path.effects if e.kind in ("call", "store") and i + 1 <= e.ndec <= hi]
                 out.setdefault(kind, set()).update(
                     (e.kind, short(e.name).rsplit("::", 1)[-1] if e.kind == "call" else e.name.rsplit(".", 1)[-1],
                      vkey(e.args[0])[:30] if e.args else "") for e in effs)
         return out
-    ja = p.named("add_misformatted_file", within="emitter::json::JsonEmitter")
+    cands = [f for f in p.by_crate["rustfmt_nightly"] if "emitter::json" in f.id
+             and any(c.name.endswith("String::push_str") for c in f.calls())
+             and any(s_[0] == "=" and s_[2][0] == "discr" and s_[2][2].endswith("rustfmt_diff::DiffLine") for _b, _i, s_ in f.stmts())]
+    ja = cands[0] if len(cands) == 1 else None
     if ja is None:
-        r.undecidable(C, "JsonEmitter::add_misformatted_file not found")
+        r.undecidable(C, "the JSON emitter function that distributes DiffLine kinds was not found uniquely (%d)" % len(cands))
     else:
         # which local buffer receives the text of each kind, and into which MismatchedBlock field that buffer goes
         def borrowed_local(fn, op):
